@@ -234,6 +234,10 @@ def run(prog: Program, rep: Report, tier: str) -> None:
     dom1, _, _, _ = analyse(prog, kmin=1)
     dep = sorted({f"{o.func}: {o.construct} axis {o.axis}" for o in dom1.obligations if not o.ok})
     rep.check("R17.3", gi.qual, "level count >= 2 not enforced at start-up", enforced, what_bad=f"with a single s-level (N = 1) the proof fails for {len(dep)} subscript(s), e.g. {dep[:2]}: a particle below the level gets K = 1 and trilinear reads F[1] outside the array", what_ok="guarded", loc=gi.loc())
+    from ..share import share
+
+    share(prog, rep, "C12", ("R12.4",), "R17.5", "the level arrays handed to the kernels have the lengths the kernels index (rho levels N, w levels N+1)", 4)
+
 
 
 from ..selftest import Mut  # noqa: E402
